@@ -277,6 +277,38 @@ func cmdCheck(args []string) int {
 			}
 		}
 	}
+	// built-in structural checks
+	var extraEvidence []interface{}
+	for _, ex := range cfg.Extra {
+		if ex == "abci-no-ambient-input" {
+			entries := []string{"app::(*ShutterApp).InitChain", "app::(*ShutterApp).BeginBlock", "app::(*ShutterApp).CheckTx", "app::(*ShutterApp).DeliverTx",
+				"app::(*ShutterApp).EndBlock", "app::(*ShutterApp).Commit", "app::(*ShutterApp).PrepareProposal", "app::(*ShutterApp).ProcessProposal", "app::(*ShutterApp).Info"}
+			allowed := map[string]string{
+				"(*app.ShutterApp).maybePersistToDisk": "reads the clock only to decide WHEN to write the state file (LastSaved); neither response nor consensus state depends on it",
+				"(*app.ShutterApp).PersistToDisk":      "writes the state file and records LastSaved",
+			}
+			mapRangeOK := map[string]bool{}
+			for _, key := range cfg.Units {
+				full := modPath + "/" + key
+				for _, fn := range eng.funcs[full] {
+					mapRangeOK[stripTypeArgs(shortFn(fn.String()))] = true
+				}
+			}
+			checked, findings, n := eng.abciNoAmbientInput(entries, allowed, mapRangeOK)
+			total++
+			if len(findings) == 0 {
+				discharged++
+				solverCount["call-graph walk"]++
+				newBase["abci/no-ambient-input"] = "discharged"
+			} else {
+				for _, f := range findings {
+					pending = append(pending, &ReplayInfo{Property: cfg.ID, Obligation: "abci/no-ambient-input[" + f.What + " via " + strings.Join(f.Path, " > ") + "]", Kind: "frame-callgraph",
+						Function: f.Entry, SolverSays: "syntactic", Reason: "an ABCI method can reach " + f.What + "; its result may then depend on something outside the block sequence"})
+				}
+			}
+			extraEvidence = append(extraEvidence, map[string]interface{}{"check": ex, "entries": checked, "functions_reachable": n, "audited_exceptions": allowed, "findings": len(findings)})
+		}
+	}
 	{
 		built := make([]*ReplayInfo, len(toBuild))
 		var bwg sync.WaitGroup
@@ -323,6 +355,10 @@ func cmdCheck(args []string) int {
 	sort.Strings(ext)
 	for _, s := range ext {
 		if strings.HasPrefix(s, "contract:") {
+			continue
+		}
+		if strings.HasPrefix(s, "assumed-clause:") {
+			assumptions = append(assumptions, "assumed (unchecked) postcondition clause of "+strings.TrimPrefix(s, "assumed-clause:"))
 			continue
 		}
 		if strings.HasPrefix(s, "db:") {
@@ -376,6 +412,7 @@ func cmdCheck(args []string) int {
 			"outside":                  cfg.Outside,
 			"integers":                 "mathematical Int with exact Go wrap-around (mod 2^N) on every arithmetic instruction and conversion",
 			"contract_sources":         eng.specSrc,
+			"structural_checks":        extraEvidence,
 		},
 		"assumptions": assumptions,
 		"wall_s":      time.Since(t0).Seconds(),
